@@ -7,6 +7,9 @@
                                   (any spelling of Ch / Maj / Parity / F G H I, xor of rotations, ~x ... is one node)
    ('rot', k, id)                 rotate left by k (1..31); rotations compose; (x<<k) op (x>>(32-k)) with op in | + ^ is a rotation
    ('shl', k, id) / ('shr', k, id)
+   ('pack', (b0, b1, b2, b3))     four byte terms of the byte-term store `bytes` packed little-endian (opaque: only evaluated)
+A leaf named by a 4-tuple of byte names is the little-endian packing of those message bytes; evaluation assigns bytes, so that a
+pack node and a leaf over the same bytes agree.
 Equal ids => equal functions (every rewrite is an equivalence).  Unequal ids are reported as a violation only together with
 an assignment on which the two terms evaluate differently.
 """
@@ -16,9 +19,10 @@ M32 = 0xffffffff
 
 
 class WS:
-    def __init__(self):
+    def __init__(self, bytes_store=None):
         self.nodes = []
         self.index = {}
+        self.bytes = bytes_store
 
     def mk(self, node):
         i = self.index.get(node)
@@ -33,6 +37,9 @@ class WS:
 
     def leaf(self, name):
         return self.mk(('leaf', name))
+
+    def pack(self, ids):
+        return self.mk(('pack', tuple(ids)))
 
     def is_k(self, i):
         return self.nodes[i][0] == 'k'
@@ -213,7 +220,12 @@ class WS:
             if t == 'k':
                 memo[j] = n[1]
             elif t == 'leaf':
-                memo[j] = env[n[1]] & M32
+                if isinstance(n[1], tuple):
+                    memo[j] = sum((env[b] & 0xff) << (8 * q) for q, b in enumerate(n[1]))
+                else:
+                    memo[j] = env[n[1]] & M32
+            elif t == 'pack':
+                memo[j] = sum((self.bytes.evaluate(b, env) & 0xff) << (8 * q) for q, b in enumerate(n[1])) & M32
             elif t == 'add':
                 miss = [x for x, _ in n[1] if x not in memo]
                 if miss:
@@ -255,7 +267,13 @@ class WS:
             seen.add(j)
             n = self.nodes[j]
             if n[0] == 'leaf':
-                acc.add(n[1])
+                if isinstance(n[1], tuple):
+                    acc.update(n[1])
+                else:
+                    acc.add(n[1])
+            elif n[0] == 'pack':
+                for b in n[1]:
+                    acc |= self.bytes.leaves(b)
             elif n[0] == 'add':
                 stack.extend(x for x, _ in n[1])
             elif n[0] in ('rot', 'shl', 'shr'):
@@ -278,6 +296,8 @@ class WS:
             return '%s%d(%s)' % (n[0], n[1], self.show(n[2], depth - 1))
         if n[0] == 'bit':
             return 'bit[%x](%s)' % (n[1], ','.join(self.show(x, depth - 1) for x in n[2]))
+        if n[0] == 'pack':
+            return 'pack(%s)' % ','.join(self.bytes.show(b, depth - 1) for b in n[1])
         return str(n)
 
 
@@ -287,7 +307,7 @@ def compare_words(ws, a, b, samples=16, seed=20260926):
     names = sorted(ws.leaves(a) | ws.leaves(b), key=str)
     rnd = random.Random(seed)
     for _ in range(samples):
-        env = {n: rnd.getrandbits(32) for n in names}
+        env = {n: rnd.getrandbits(32) for n in names}     # byte names are read through & 0xff
         va, vb = ws.evaluate(a, env), ws.evaluate(b, env)
         if va != vb:
             return ('differ', va, vb)
